@@ -214,7 +214,7 @@ def _resolve_env(enc, env):
     return out
 
 
-def check(model, acc: Access, size_params=(), timeout_ms=20000):
+def check(model, acc: Access, size_params=(), timeout_ms=20000, xcheck=False):
     """-> dict(status=safe|unsafe|unknown|data_dependent, model=..., solver_s=...)"""
     enc = _Enc(model)
     s = z3.Solver()
@@ -259,6 +259,13 @@ def check(model, acc: Access, size_params=(), timeout_ms=20000):
         res["status"] = "data_dependent" if enc.data_dependent else "unsafe"
     else:
         res["status"] = "unknown"
+    if xcheck and str(r) in ("sat", "unsat"):
+        from pv.sem.crosscheck import cvc5_verdict
+        v = cvc5_verdict(s)
+        res["cvc5"] = v
+        if v in ("sat", "unsat") and v != str(r):
+            res["status"] = "unknown"
+            res["disagreement"] = f"z3 {r} vs cvc5 {v}"
     s.pop()
     return res
 
